@@ -37,7 +37,10 @@ func fileExists(name string) (bool, error) {
 }
 
 func createSegment(name string, opt Options) (err error) {
-	f, err := os.OpenFile(name, os.O_RDWR|os.O_CREATE, opt.FileMode)
+	// segment is made under temporary name, and renamed once it is ready.
+	// if we die in between, no half made segment is left with the real name
+	temp := name + ".tmp"
+	f, err := os.OpenFile(temp, os.O_RDWR|os.O_CREATE|os.O_TRUNC, opt.FileMode)
 	if err != nil {
 		return
 	}
@@ -46,9 +49,7 @@ func createSegment(name string, opt Options) (err error) {
 			err = e
 		}
 		if err != nil {
-			if e := os.Remove(name); err == nil {
-				err = e
-			}
+			_ = os.Remove(temp)
 		}
 	}()
 	size := int64(opt.SegmentSize)
@@ -58,7 +59,10 @@ func createSegment(name string, opt Options) (err error) {
 	if _, err = f.WriteAt(make([]byte, 16), size-16); err != nil {
 		return
 	}
-	err = f.Sync()
+	if err = f.Sync(); err != nil {
+		return
+	}
+	err = os.Rename(temp, name)
 	return
 }
 
